@@ -8,6 +8,16 @@ package input
 // markdown.  The variant is given as main-flags and parsed by the real cli.FLAG_TABLE, so the
 // "was specified" bookkeeping Finalize*Options depends on is the real one.
 
+import (
+	"bufio"
+	"bytes"
+
+	"github.com/johnkerl/miller/v6/pkg/cli"
+	"github.com/johnkerl/miller/v6/pkg/mlrval"
+	"github.com/johnkerl/miller/v6/pkg/output"
+	"github.com/johnkerl/miller/v6/pkg/types"
+)
+
 // TSV with CRLF line endings (the TSV writer refuses any other OFS than TAB, so the separator is
 // not a variant of this format): CR inside a value is escaped, so every byte stays representable
 //verif:opts engine-only maxpaths=300000 unwind=300
@@ -87,4 +97,87 @@ func VerifC01_pprint_right_aligned_roundtrip() {
 //verif:opts engine-only maxpaths=300000 unwind=400
 func VerifC01_markdown_writer_reader_roundtrip() {
 	c01WriteRead(c01Domain{format: "markdown", forbidden: "|\n \\", nonEmpty: true, ascii: true})
+}
+
+// Wide records ("any field count incl. >= 12"): one record of n fields, n over the palette
+// {1, 11, 12, 13, 64, 65, 100} (around the key-index threshold and past any positional-name
+// cache), written and read back in every line-oriented format; names k1..kn (positions for NIDX and
+// the headerless variants), values v1..vn except one symbolic printable byte in the last field,
+// followed by a second record of the same shape.
+//verif:opts engine-only maxpaths=100000 unwind=2000
+func VerifC01_wide_records_roundtrip() {
+	verifReplace("github.com/johnkerl/miller/v6/pkg/lib.OpenFileForRead", c05Open)
+	type variant struct {
+		format   string
+		posNames bool
+		flags    []string
+	}
+	vs := []variant{
+		{"tsv", false, nil}, {"dkvp", false, nil}, {"csvlite", false, nil}, {"csv", false, nil}, {"xtab", false, nil}, {"pprint", false, nil},
+		{"markdown", false, nil}, {"nidx", true, nil}, {"nidx", true, []string{"--ifs", ";", "--ofs", ";"}},
+		{"csvlite", true, []string{"--headerless-csv-output", "--implicit-csv-header"}},
+		{"pprint", false, []string{"--barred-output", "--barred-input"}},
+	}
+	v := vs[verifChoice("format", len(vs))]
+	n := []int{1, 11, 12, 13, 64, 65, 100}[verifChoice("fields", 7)]
+	o := cli.DefaultOptions()
+	o.ReaderOptions.InputFileFormat = v.format
+	o.WriterOptions.OutputFileFormat = v.format
+	for argi := 0; argi < len(v.flags); {
+		ok, err := cli.FLAG_TABLE.Parse(v.flags, len(v.flags), &argi, o)
+		verifAssert(ok && err == nil, "C01/wide/variant-flags-accepted")
+		if !ok || err != nil {
+			return
+		}
+	}
+	verifAssert(cli.FinalizeReaderOptions(&o.ReaderOptions) == nil && cli.FinalizeWriterOptions(&o.WriterOptions) == nil, "C01/wide/options")
+	last := verifString("last_value", 1)
+	verifAssume((last[0] >= 'a' && last[0] <= 'z') || (last[0] >= '0' && last[0] <= '9'))
+	itoa := func(i int) string {
+		if i < 10 {
+			return string(rune('0' + i))
+		}
+		if i < 100 {
+			return string(rune('0'+i/10)) + string(rune('0'+i%10))
+		}
+		return "100"
+	}
+	w, err := output.Create(&o.WriterOptions)
+	verifAssert(err == nil && w != nil, "C01/wide/writer-created")
+	var buf bytes.Buffer
+	bw := bufio.NewWriter(&buf)
+	ctx := types.NewContext()
+	names, values := make([]string, n), make([]string, n)
+	for i := 0; i < n; i++ {
+		names[i], values[i] = "k"+itoa(i+1), "v"+itoa(i+1)
+		if v.posNames {
+			names[i] = itoa(i + 1)
+		}
+	}
+	values[n-1] = last
+	for r := 0; r < 2; r++ {
+		rec := mlrval.NewMlrmapAsRecord()
+		for i := 0; i < n; i++ {
+			rec.PutReference(names[i], mlrval.FromString(values[i]))
+		}
+		verifAssert(w.Write(rec, ctx, bw, false) == nil, "C01/wide/write-ok")
+	}
+	verifAssert(w.Write(nil, ctx, bw, false) == nil, "C01/wide/write-end-ok")
+	bw.Flush()
+	c05Files = map[string]string{"f": buf.String()}
+	rd, err := Create(&o.ReaderOptions, 500)
+	verifAssert(err == nil && rd != nil, "C01/wide/reader-created")
+	got := c05ReadAll(rd, []string{"f"})
+	verifAssert(!got.hadErr, "C01/wide/own-output-is-read-without-error")
+	verifAssert(len(got.recs) == 2, "C01/wide/same-number-of-records")
+	for _, rac := range got.recs {
+		verifAssert(rac.Record.FieldCount == int64(n), "C01/wide/same-number-of-fields")
+		pe := rac.Record.Head
+		for i := 0; i < n && pe != nil; i++ {
+			verifAssert(pe.Key == names[i], "C01/wide/same-names-in-order")
+			verifAssert(pe.Value.String() == values[i], "C01/wide/same-value-bytes")
+			pe = pe.Next
+		}
+	}
+	verifReach("C01/wide/end")
 }
